@@ -251,6 +251,11 @@ def flipped(c: ast.Compare):
 def negated(t):
     if isinstance(t, ast.UnaryOp) and isinstance(t.op, ast.Not):
         return t.operand
+    if isinstance(t, ast.BoolOp):
+        # De Morgan: not (a and b) == (not a) or (not b); operands keep their order, so evaluation order and
+        # short-circuiting are the same
+        op = ast.Or() if isinstance(t.op, ast.And) else ast.And()
+        return ast.copy_location(ast.BoolOp(op=op, values=[negated(v) for v in t.values]), t)
     if isinstance(t, ast.Compare) and len(t.ops) == 1 and type(t.ops[0]) in _NEG:
         return ast.copy_location(ast.Compare(left=t.left, ops=[_NEG[type(t.ops[0])]()], comparators=t.comparators), t)
     return ast.copy_location(ast.UnaryOp(op=ast.Not(), operand=t), t)
